@@ -12,6 +12,6 @@ type RevCase struct {
 }
 
 func histGen(r *vh.Rng, tier string) HistCase { return HistCase{Kind: "hist"} }
-func histRun(c HistCase) vh.Record           { return vh.Record{Case: vh.MustJSON(c), Coq: "THist [] []"} }
+func histRun(c HistCase) vh.Record { return vh.Record{Case: vh.MustJSON(c), Coq: "THist [] []", Tags: []string{"stub"}} }
 func revGen(r *vh.Rng) RevCase               { return RevCase{Kind: "rev"} }
-func revRun(c RevCase) vh.Record             { return vh.Record{Case: vh.MustJSON(c), Coq: "TRev [true]"} }
+func revRun(c RevCase) vh.Record { return vh.Record{Case: vh.MustJSON(c), Coq: "TRev [true]", Tags: []string{"stub"}} }
